@@ -92,3 +92,36 @@ spec fn args_of(a: ast::Aidl) -> Seq<(ast::Method, ast::Arg)> {
         _ => Seq::<(ast::Method, ast::Arg)>::empty(),
     }
 }
+
+// ---- the mutable type walker offers the nodes parent first (no array exception), as they are when offered ----
+spec fn pre(t: ast::Type) -> Seq<ast::Type>
+    decreases t, t.generic_types@.len() + 1
+{ seq![t] + pre_kids(t, t.generic_types@.len() as int) }
+spec fn pre_kids(t: ast::Type, n: int) -> Seq<ast::Type>
+    decreases t, n
+{ if n <= 0 || n > t.generic_types@.len() { Seq::<ast::Type>::empty() } else { pre_kids(t, n - 1) + pre(t.generic_types@[n - 1]) } }
+spec fn pre_args(args: Seq<ast::Arg>, n: int) -> Seq<ast::Type>
+    decreases n
+{ if n <= 0 { Seq::<ast::Type>::empty() } else { pre_args(args, n - 1) + pre(args[n - 1].arg_type) } }
+spec fn pre_iface_el(el: ast::InterfaceElement) -> Seq<ast::Type> {
+    match el {
+        ast::InterfaceElement::Method(m) => pre(m.return_type) + pre_args(m.args@, m.args@.len() as int),
+        ast::InterfaceElement::Const(c) => pre(c.const_type),
+    }
+}
+spec fn pre_parc_el(el: ast::ParcelableElement) -> Seq<ast::Type> {
+    match el { ast::ParcelableElement::Field(f) => pre(f.field_type), ast::ParcelableElement::Const(c) => pre(c.const_type) }
+}
+spec fn pre_iface(els: Seq<ast::InterfaceElement>, n: int) -> Seq<ast::Type>
+    decreases n
+{ if n <= 0 { Seq::<ast::Type>::empty() } else { pre_iface(els, n - 1) + pre_iface_el(els[n - 1]) } }
+spec fn pre_parc(els: Seq<ast::ParcelableElement>, n: int) -> Seq<ast::Type>
+    decreases n
+{ if n <= 0 { Seq::<ast::Type>::empty() } else { pre_parc(els, n - 1) + pre_parc_el(els[n - 1]) } }
+spec fn types_pre_of(a: ast::Aidl) -> Seq<ast::Type> {
+    match a.item {
+        ast::Item::Interface(i) => pre_iface(i.elements@, i.elements@.len() as int),
+        ast::Item::Parcelable(p) => pre_parc(p.elements@, p.elements@.len() as int),
+        ast::Item::Enum(_) => Seq::<ast::Type>::empty(),
+    }
+}
